@@ -1,5 +1,6 @@
 import IceModel.UdpMux
 import IceSpec.C12
+import IceSpec.C12View
 import Driver.Util
 /-!
 Line-protocol driver of the `udpmux` component (C12): recomputes every output with `IceModel.UdpMux`
@@ -14,46 +15,19 @@ connections they closed.
 namespace Driver.UdpMux
 open IceModel.UdpMux Driver
 open IceSpec.C12 (SState)
+open IceSpec.C12View (parseWire printOut printCloseIn Wire)
 
-def nameOf (s : String) : Name := s.toList.map Char.toNat
+/- the token functions of the view, under the names the other mux drivers use -/
+export IceSpec.C12View (nameOf showName showAddr parseAddr parseHandle parseConn)
 
-def parseAddr (tok : String) : Option Addr :=
-  match tok.splitOn "," with
-  | ["4", a, p] =>
-    match a.toNat?, p.toNat? with
-    | some a, some p => some { ip := { is4 := true, hi := 0, lo := a, zone := [] }, port := p }
-    | _, _ => none
-  | ["6", hi, lo, z, p] =>
-    match hi.toNat?, lo.toNat?, p.toNat? with
-    | some hi, some lo, some p =>
-      some { ip := { is4 := false, hi := hi, lo := lo, zone := if z = "-" then [] else nameOf z }, port := p }
-    | _, _, _ => none
-  | _ => none
-
-def showName (n : Name) : String := String.ofList (n.map Char.ofNat)
-
-def showAddr (a : Addr) : String :=
-  if a.ip.is4 then s!"4,{a.ip.lo},{a.port}"
-  else s!"6,{a.ip.hi},{a.ip.lo},{if a.ip.zone.isEmpty then "-" else showName a.ip.zone},{a.port}"
+/-- the printer of the view -/
+abbrev showOut (i g : Nat) (o : Out) : String := printOut i g o
 
 def parseKind (tok : String) : Option Kind :=
   if tok.startsWith "su:" then some (.stunUser (nameOf (tok.drop 3).toString))
   else if tok = "sn" then some .stunNoUser
   else if tok = "sb" then some .stunBad
   else if tok = "ns" then some .nonStun
-  else none
-
-def parseHandle (tok : String) : Option Nat :=
-  if tok.startsWith "h" then (tok.drop 1).toString.toNat? else none
-
-/-- `m<i>c<k>` -/
-def parseConn (tok : String) : Option (Nat × Nat) :=
-  if tok.startsWith "m" then
-    match ((tok.drop 1).toString).splitOn "c" with
-    | [i, k] => match i.toNat?, k.toNat? with
-      | some i, some k => some (i, k)
-      | _, _ => none
-    | _ => none
   else none
 
 structure State where
@@ -80,20 +54,6 @@ def mon (why : Option String) (model : String) : Res := { model := model, monito
 
 /-- first `some` of two verdicts -/
 def orElse (a b : Option String) : Option String := match a with | some x => some x | none => b
-
-def showOut (i : Nat) (g : Nat) : Out → String
-  | .conn _ c => s!"h{g} m{i}c{c}"
-  | .errClosed => "err:closed"
-  | .errAddr => "err:addr"
-  | .wrote => "ok"
-  | .errSock => "err:sock"
-  | .delivered c => s!"m{i}c{c}"
-  | .dropped => "none"
-  | .done => "ok"
-  | .pkt pid src => s!"p{pid} {showAddr src}"
-  | .empty => "empty"
-  | .eof => "eof"
-  | .bad => "bad"
 
 /-- run all watchers of mux `m` (connections `0 .. n-1`) -/
 def watchAll (m : Mux) : Mux := (List.range m.nconns).foldl (fun m c => (watcherRun m c).1) m
@@ -135,28 +95,25 @@ def stepCore (st : State) (toks : List String) (impl : String) : State × Res :=
             let (m1, o) := getConnAt sk m uf addr
             let g := st.mh.length
             match o with
-            | .conn h c => ({ st with muxes := setAt st.muxes i m1, mh := st.mh ++ [(i, h)] }, showOut i g o, some (i, c))
-            | _ => ({ st with muxes := setAt st.muxes i m1 }, showOut i g o, none)
+            | .conn h c => ({ st with muxes := setAt st.muxes i m1, mh := st.mh ++ [(i, h)] }, printOut i g o, some (i, c))
+            | _ => ({ st with muxes := setAt st.muxes i m1 }, printOut i g o, none)
           | _, _ => (st, "bad", none)
       -- monitor on the implementation's output
       let v6 := localIsV6 addr.ip
       let (st2, v) : State × Option String :=
-        match impl.splitOn " " with
-        | [hTok, cTok] =>
-          match parseHandle hTok, parseConn cTok with
-          | some g, some (j, k) =>
-            let v0 : Option String :=
-              if g ≠ st1.ih.length then some "dispatch: GetConn: handle id is not fresh"
-              else match target with
-                | some i => if i ≠ j then some "dispatch: the multi mux handed out a connection of a socket that does not listen on the requested address" else none
-                | none => some "dispatch: the multi mux handed out a connection for an address nobody listens on"
-            match st1.specs[j]? with
-            | some s =>
-              let (s1, v1) := IceSpec.C12.step s (.getConn uf v6) (.conn s.nh k)
-              ({ st1 with specs := setAt st1.specs j s1, ih := st1.ih ++ [(j, s.nh)] }, orElse v0 v1)
-            | none => (st1, some "dispatch: GetConn output names a mux that does not exist")
-          | _, _ => (st1, some "dispatch: GetConn: unparsable output")
-        | _ => (st1, none)
+        match parseWire impl with
+        | some (.conn g j k) =>
+          let v0 : Option String :=
+            if g ≠ st1.ih.length then some "dispatch: GetConn: handle id is not fresh"
+            else match target with
+              | some i => if i ≠ j then some "dispatch: the multi mux handed out a connection of a socket that does not listen on the requested address" else none
+              | none => some "dispatch: the multi mux handed out a connection for an address nobody listens on"
+          match st1.specs[j]? with
+          | some s =>
+            let (s1, v1) := IceSpec.C12.step s (.getConn uf v6) (.conn s.nh k)
+            ({ st1 with specs := setAt st1.specs j s1, ih := st1.ih ++ [(j, s.nh)] }, orElse v0 v1)
+          | none => (st1, some "dispatch: GetConn output names a mux that does not exist")
+        | _ => (st1, if IceSpec.C12View.tokenCount impl = 2 then some "dispatch: GetConn: unparsable output" else none)
       let _ := modelConn
       (st2, mon v modelOut)
   | ["write", hTok, a] =>
@@ -166,12 +123,16 @@ def stepCore (st : State) (toks : List String) (impl : String) : State × Res :=
         match st.mh[g]? with
         | some (i, h) =>
           match st.muxes[i]? with
-          | some m => let (m1, o) := writeTo m h addr; ({ st with muxes := setAt st.muxes i m1 }, showOut i g o)
+          | some m => let (m1, o) := writeTo m h addr; ({ st with muxes := setAt st.muxes i m1 }, printOut i g o)
           | none => (st, "bad")
         | none => (st, "bad")
       let io : Option Out :=
-        if impl = "ok" then some .wrote else if impl = "err:sock" then some .errSock
-        else if impl = "err:closed" then some .errClosed else if impl = "bad" then some .bad else none
+        match parseWire impl with
+        | some .ok => some .wrote
+        | some .errSock => some .errSock
+        | some .errClosed => some .errClosed
+        | some .bad => some .bad
+        | _ => none
       let (st2, v) : State × Option String :=
         match io with
         | none => (st1, some "dispatch: write: unparsable output")
@@ -186,15 +147,15 @@ def stepCore (st : State) (toks : List String) (impl : String) : State × Res :=
     | some i, some src, some k, some pid =>
       let (st1, modelOut) : State × String :=
         match st.muxes[i]? with
-        | some m => let (m1, o) := inbound m src k pid; ({ st with muxes := setAt st.muxes i m1 }, showOut i 0 o)
+        | some m => let (m1, o) := inbound m src k pid; ({ st with muxes := setAt st.muxes i m1 }, printOut i 0 o)
         | none => (st, "bad")
       let (st2, v) : State × Option String :=
-        if impl = "none" then specStep st1 i (.inbound src k pid) .dropped
-        else match parseConn impl with
-          | some (j, c) =>
-            if j ≠ i then (st1, some "dispatch: datagram delivered to a connection of another socket's mux")
-            else specStep st1 i (.inbound src k pid) (.delivered c)
-          | none => (st1, some ("dispatch: datagram handed to more than one connection or queue corrupted: " ++ impl))
+        match parseWire impl with
+        | some .dropped => specStep st1 i (.inbound src k pid) .dropped
+        | some (.delivered j c) =>
+          if j ≠ i then (st1, some "dispatch: datagram delivered to a connection of another socket's mux")
+          else specStep st1 i (.inbound src k pid) (.delivered c)
+        | _ => (st1, some ("dispatch: datagram handed to more than one connection or queue corrupted: " ++ impl))
       (st2, mon v modelOut)
     | _, _, _, _ => (st, bad "udpmux in: args")
   | ["remove", u] =>
@@ -212,7 +173,7 @@ def stepCore (st : State) (toks : List String) (impl : String) : State × Res :=
           match st.muxes[i]? with
           | some m =>
             let (m1, o) := closeHandle m h
-            ({ st with muxes := setAt st.muxes i m1 }, showOut i g o)
+            ({ st with muxes := setAt st.muxes i m1 }, printOut i g o)
           | none => (st, "bad")
         | none => (st, "bad")
       let st2 : State :=
@@ -244,27 +205,27 @@ def stepCore (st : State) (toks : List String) (impl : String) : State × Res :=
               match stB.muxes[i]? with
               | some mi1 =>
                 let (mi2, o) := inbound mi1 src k pid
-                ({ stB with muxes := setAt stB.muxes i mi2 }, "ok " ++ (if window then "w " else "q ") ++ showOut i 0 o)
+                ({ stB with muxes := setAt stB.muxes i mi2 }, printCloseIn window i o)
               | none => (stB, "bad")
             | none => (stA, "bad")
           | none => (st, "bad")
         | none => (st, "bad")
       -- monitor on the implementation's output
       let (st2, v) : State × Option String :=
-        match impl.splitOn " " with
-        | ["ok", flag, res] =>
+        match parseWire impl with
+        | some (.closeIn window to) =>
           match st1.ih[g]? with
           | some (j, h) =>
             let (stA, _) := specStep st1 j (.closeHandle h) .done
-            let stB : State := if flag = "w" then stA else { stA with specs := stA.specs.map specWatchAll }
-            if res = "none" then specStep stB i (.inbound src k pid) .dropped
-            else match parseConn res with
-              | some (j', c) =>
-                if j' ≠ i then (stB, some "dispatch: datagram delivered to a connection of another socket's mux")
-                else specStep stB i (.inbound src k pid) (.delivered c)
-              | none => (stB, some ("dispatch: datagram handed to more than one connection or queue corrupted: " ++ res))
+            let stB : State := if window then stA else { stA with specs := stA.specs.map specWatchAll }
+            match to with
+            | none => specStep stB i (.inbound src k pid) .dropped
+            | some (j', c) =>
+              if j' ≠ i then (stB, some "dispatch: datagram delivered to a connection of another socket's mux")
+              else specStep stB i (.inbound src k pid) (.delivered c)
           | none => (st1, some "dispatch: close of an unknown handle succeeded")
-        | _ => (st1, if impl = "bad" then none else some "dispatch: closein: unparsable output")
+        | some .bad => (st1, none)
+        | _ => (st1, some ("dispatch: closein: unparsable output, or datagram handed to more than one connection: " ++ impl))
       (st2, mon v modelOut)
     | _, _, _, _, _ => (st, bad "udpmux closein: args")
   | ["watch"] => (st, mon none "ok")
@@ -279,20 +240,17 @@ def stepCore (st : State) (toks : List String) (impl : String) : State × Res :=
         match st.mh[g]? with
         | some (i, h) =>
           match st.muxes[i]? with
-          | some m => let (m1, o) := read m h; ({ st with muxes := setAt st.muxes i m1 }, showOut i g o)
+          | some m => let (m1, o) := read m h; ({ st with muxes := setAt st.muxes i m1 }, printOut i g o)
           | none => (st, "bad")
         | none => (st, "bad")
       let io : Option Out :=
-        if impl = "empty" then some .empty else if impl = "eof" then some .eof
-        else if impl = "err:closed" then some .errClosed else if impl = "bad" then some .bad
-        else match impl.splitOn " " with
-          | [p, a] =>
-            if p.startsWith "p" then
-              match (p.drop 1).toString.toNat?, parseAddr a with
-              | some pid, some src => some (.pkt pid src)
-              | _, _ => none
-            else none
-          | _ => none
+        match parseWire impl with
+        | some .empty => some .empty
+        | some .eof => some .eof
+        | some .errClosed => some .errClosed
+        | some .bad => some .bad
+        | some (.pkt pid src) => some (.pkt pid src)
+        | _ => none
       let (st2, v) : State × Option String :=
         match io with
         | none => (st1, some ("faithful: read returned bytes that are not a datagram fed to the mux, or an unparsable source: " ++ impl))
